@@ -16,6 +16,8 @@ case "$CF" in
  *) /verif/tools_rebuild_ext.sh "$CF" >/dev/null ;;
 esac
 echo "== demo on mutated tree"; /venv/bin/python "$D/demo.py" >/dev/null 2>&1; echo "demo rc(mut)=$?"
+# optional: VERIF_TESTS="tests/a.py tests/b.py" runs these test files on the mutated tree (compare with the unchanged tree yourself)
+[ -n "$VERIF_TESTS" ] && { echo "tests(mut): $(cd /repo && /venv/bin/python -m pytest -q -p no:cacheprovider -n 8 $VERIF_TESTS 2>&1 | tail -1)"; }
 cd /verif && ./check "$P" "$@" 2>/dev/null | grep -E -A${VERIF_CTX:-0} "VIOLATION|SUMMARY|HARNESS|INCONCLUSIVE"
 cd /repo && git checkout -- . ; cp -p "$BK"/*.c* "$(dirname $CF)/" 2>/dev/null; cp -p "$BK"/*.so "$(dirname $SO)/"; rm -rf "$BK"; rm -f "$CF.orig" "$CF.rej"
 git status --short | head -3
